@@ -60,6 +60,17 @@ CHECKS["C06"] = dict(technique=FN, category="model_checking", ref="DESIGN.md sec
           "3k-20k random records (non-UTF-8 bytes, 3 threads) are run through the code and the recorded answers judged by TLC."),
     note=TB + " Floats compared with exact rationals up to 4 ulp.")
 
+CHECKS["C15"] = dict(technique="TLA+ model checking (TLC) of the wait_pid polling loop in virtual time; every enumerated configuration replayed into the real wait() over a virtual clock; wait_procs executions validated by TLC against a TLA+ contract (trace validation)", category="model_checking", ref="DESIGN.md section 3 C15",
+    text=("Wait.tla models Process.wait(timeout)/wait_pid as Poll / deadline-check / Sleep steps in virtual time (0.05 ms "
+          "half-units, real constants: first sleep 0.1 ms, cap 40 ms) for child / non-child / never-existed PIDs; Init "
+          "enumerates exit instants around every poll instant and deadline (thorough: every odd instant up to 150 ms) x "
+          "timeouts (None, 0, negative, 5 to 16 finite) x 4 exit statuses; TLC checks never-early, right status, "
+          "TimeoutExpired only with the process alive at the deadline and at most one poll late, back-off shape, no sleep "
+          "for timeout=0, cached second call and termination (liveness under WF). Every configuration is then executed on "
+          "the real code with os.waitpid/kill/time on the simulated kernel's virtual clock, comparing outcome, sleep "
+          "arguments and return instant. 2.5k-20k seeded wait_procs executions are validated by TLC against WaitProcs.tla."),
+    note=TB + " EINTR is absorbed by os.waitpid (PEP 475) and is not surfaced; wait status words come from real children.")
+
 PENDING = "check under construction in this round (see DESIGN.md section 6 work order)"
 NA = {}
 
